@@ -997,8 +997,19 @@ func (c *pyConfig) MustGet(key string) pyObject {
 }
 
 // Freeze returns a copy of this config that is frozen for further updates.
+// The values it holds are frozen too; they get shared with every package that merges this config.
 func (c *pyConfig) Freeze() pyObject {
-	return &pyFrozenConfig{pyConfig: *c}
+	frozen := &pyFrozenConfig{pyConfig: pyConfig{base: c.base}}
+	if c.overlay != nil {
+		frozen.overlay = make(pyDict, len(c.overlay))
+		for k, v := range c.overlay {
+			if f, ok := v.(freezable); ok {
+				v = f.Freeze()
+			}
+			frozen.overlay[k] = v
+		}
+	}
+	return frozen
 }
 
 // Merge merges the contents of the given config object into this one.
